@@ -22,6 +22,7 @@ import (
 	"path/filepath"
 	"runtime/debug"
 	"sort"
+	"time"
 )
 
 type runCtx struct {
@@ -164,6 +165,18 @@ func main() {
 	c.impl = c.open("impl.jsonl")
 	c.oracle = c.open("oracle.jsonl")
 	defer c.close()
+	// a call into the real code that never returns (a deadlock the slice's own watchdogs cannot get out
+	// of) is a finding with the context so far, not a run that is silently cut off from outside
+	go func() {
+		limit := 900 * time.Second
+		if *tier == "thorough" {
+			limit = 5400 * time.Second
+		}
+		time.Sleep(limit)
+		c.violation(c.nCases, prop+"/hang", fmt.Sprintf("the run did not finish within %v: a call into the real code does not return", limit), map[string]any{"context": c.extra["context"]})
+		c.close()
+		os.Exit(0)
+	}()
 	// a panic of the real code that a slice did not catch itself is a finding with the
 	// schedule so far, not a harness failure
 	func() {
